@@ -1045,19 +1045,42 @@ impl Driver {
     }
 }
 
+/// (api calls, problems, stale events, collections that ran during the sequence, first operations)
+struct SeqOutcome {
+    calls: u64,
+    problems: Vec<(String, String)>,
+    stale: Vec<String>,
+    collections: u64,
+    swept: u64,
+    trace_head: Vec<String>,
+}
+
+fn run_sequence_full(family: &str, shard: u64, n: u64, len: usize, scripts: bool) -> SeqOutcome {
+    let c0 = tsrun::verif::gc_counters();
+    let (calls, problems, stale, trace_head) = run_sequence_inner(family, shard, n, len, scripts);
+    let c1 = tsrun::verif::gc_counters();
+    SeqOutcome { calls, problems, stale, collections: c1.collections - c0.collections, swept: c1.swept - c0.swept, trace_head }
+}
+
 fn run_sequence(family: &str, shard: u64, n: u64, len: usize, scripts: bool) -> (u64, Vec<(String, String)>, Vec<String>) {
+    let o = run_sequence_full(family, shard, n, len, scripts);
+    (o.calls, o.problems, o.stale)
+}
+
+fn run_sequence_inner(family: &str, shard: u64, n: u64, len: usize, scripts: bool) -> (u64, Vec<(String, String)>, Vec<String>, Vec<String>) {
     tsrun::verif::take_gc_events();
     let mut d = Driver::new(family, shard, n, scripts);
     if d.ctx.is_null() {
-        return (0, vec![("null-handle".into(), "tsrun_new returned NULL".into())], vec![]);
+        return (0, vec![("null-handle".into(), "tsrun_new returned NULL".into())], vec![], vec![]);
     }
     for _ in 0..len {
         d.step();
     }
     let ctx_first = d.rng.chance(1, 2);
+    let head: Vec<String> = d.trace.iter().take(60).cloned().collect();
     d.finish(ctx_first);
     let stale: Vec<String> = tsrun::verif::take_gc_events().into_iter().filter(|e| e.kind != "clone" && e.kind != "drop_reused").map(|e| format!("{}@{}", e.kind, if e.site.is_empty() { "<host>" } else { e.site.as_str() })).collect();
-    (d.calls, d.problems, stale)
+    (d.calls, d.problems, stale, head)
 }
 
 // ───────────────────────────── NULL in every pointer position ─────────────────────────────
@@ -1279,11 +1302,21 @@ impl Check for C17 {
         let shard = if ctx.thorough() { idx as u64 } else { (ctx.seed % SHARDS) * 100 + idx as u64 };
         for n in 0..per {
             eprintln!("SEQ {}/{}/{}", ctx.engine, shard, n);
-            let (calls, problems, stale) = run_sequence("c17.seq", shard, n, len, scripts);
+            let o = run_sequence_full("c17.seq", shard, n, len, scripts);
+            let (calls, problems, stale) = (o.calls, o.problems, o.stale);
             r.evaluations += 1;
-            r.nontrivial += 1;
+            // non-trivial: at least one collection reclaimed something while the sequence held handles
+            // (Miri sequences are too short for that: there every sequence counts)
+            if o.swept > 0 || ctx.engine == "miri" {
+                r.nontrivial += 1;
+            }
             r.stat("api_calls", calls as i64);
             r.stat("sequences", 1);
+            r.stat("collections_during_sequences", o.collections as i64);
+            r.stat("objects_swept_during_sequences", o.swept as i64);
+            if n == 0 && idx < 2 {
+                r.sample(json!({"engine": ctx.engine, "sequence": format!("{}/{}", shard, n), "first_operations": o.trace_head, "api_calls": calls, "collections": o.collections}));
+            }
             let case = json!({"kind": "sequence", "shard": shard, "n": n, "len": len, "scripts": scripts, "engine": ctx.engine});
             for (k, w) in problems {
                 // signature: the kind of problem and the operation that exposed it
@@ -1296,9 +1329,6 @@ impl Check for C17 {
                 s.dedup();
                 r.violate(format!("stale|{}", s.join(",")), format!("sequence {}/{}: a reclaimed object was used through the API ({})", shard, n, s.join(",")), case);
             }
-        }
-        if idx == 0 {
-            r.sample(json!({"engine": ctx.engine, "sequences_per_unit": per, "calls_per_sequence": len, "with_scripts": scripts}));
         }
         r
     }
